@@ -162,3 +162,103 @@ func gnDeleteSweep(p *reg.Pkg, rng *rand.Rand, trees, maxLeaves int, tf *treeFil
 		}
 	}
 }
+
+// gnAtomicEmptyCases (setreq stream, C13): an atomic notification that carries no update and no
+// delete says "the subtree at the prefix is empty now". On a well-populated tree, for several
+// prefixes of existing leaf paths, UnmarshalNotifications of such a notification must remove
+// every leaf below the prefix and nothing else; each case also goes through the model.
+func gnAtomicEmptyCases(p *reg.Pkg, rng *rand.Rand, maxCases int, tf *treeFile, id *int, sum *Summary, replay gnReplay) {
+	g := newTreeGen(rng, p)
+	g.maxList = 2
+	g.nastyStr = false
+	var root ygot.ValidatedGoStruct
+	var paths map[string]*gpb.Path
+	var vals map[string]string
+	for try := 0; try < 8; try++ {
+		g.pField = 0.5 + 0.3*rng.Float64()
+		cand := g.genTree()
+		for _, s := range mgSlots(p, cand) {
+			if s.kind == "unkeyed" {
+				s.field().Set(reflect.Zero(s.sf.Type))
+			}
+		}
+		ps, vs, e := gnLeafUpdates(cand)
+		if e == nil && (root == nil || len(ps) > len(paths)) {
+			root, paths, vals = cand, ps, vs
+		}
+		if len(paths) >= 40 {
+			break
+		}
+	}
+	if root == nil {
+		return
+	}
+	// distinct proper prefixes (at least one element) of the leaf paths
+	seen := map[string]bool{}
+	var prefixes []*gpb.Path
+	var keys []string
+	for k := range paths {
+		keys = append(keys, k)
+	}
+	sort.Strings(keys)
+	for _, k := range keys {
+		es := paths[k].GetElem()
+		for n := 1; n < len(es); n++ {
+			pre := &gpb.Path{Elem: es[:n]}
+			if ps := gnPathString(pre); !seen[ps] {
+				seen[ps] = true
+				prefixes = append(prefixes, pre)
+			}
+		}
+	}
+	rng.Shuffle(len(prefixes), func(i, j int) { prefixes[i], prefixes[j] = prefixes[j], prefixes[i] })
+	if len(prefixes) > maxCases {
+		prefixes = prefixes[:maxCases]
+	}
+	pre := treeTerm(root)
+	for _, pf := range prefixes {
+		c := mgClone(root).(ygot.ValidatedGoStruct)
+		nt := &gpb.Notification{Prefix: proto.Clone(pf).(*gpb.Path), Atomic: true}
+		nst, ok := gnNotifsTerm([]*gpb.Notification{nt})
+		if !ok {
+			continue
+		}
+		pfs := gnPathString(pf)
+		in := map[string]interface{}{"pkg": p.Name, "request": fmt.Sprintf("%v", nt), "tree_before": pre, "form": "atomic notification without updates", "replay": replay}
+		err, pan := gnSafeUnmarshalNotifs(gnSchema(p, c), []*gpb.Notification{nt})
+		tf.cf.add(fmt.Sprintf("GUnmarshalNotifs %d %s %s %s %s (Some %s)", *id, gnSrOptsTerm(false, false, false), pre, nst, gnSrOut(err, pan), treeTerm(c)))
+		*id++
+		sum.count("form", "atomic notification without updates")
+		sum.OracleRuns++
+		if !pan && err != nil && p.Flags["compress"] {
+			// a prefix that ends at a container the compressed structs elide (config / state, the
+			// container around a list) names no node of the GoStruct tree: an error, as the model says
+			sum.count("form", "atomic notification at a path the compressed structs do not hold: rejected")
+			continue
+		}
+		if pan || err != nil {
+			sum.finding(Finding{Signature: "setrequest/valid-request-rejected", What: "an atomic notification without updates is rejected: " + fmt.Sprint(err), Input: in})
+			continue
+		}
+		_, post, perr := gnLeafUpdates(c)
+		if perr != nil {
+			continue
+		}
+		var bad []string
+		for q, v := range vals {
+			under := q == pfs || strings.HasPrefix(q, pfs+"/")
+			if w, still := post[q]; under && still {
+				bad = append(bad, q+" remains")
+			} else if !under && w != v {
+				bad = append(bad, q+" changed")
+			}
+		}
+		sort.Strings(bad)
+		if len(bad) > 0 {
+			if len(bad) > 6 {
+				bad = append(bad[:6], "...")
+			}
+			sum.finding(Finding{Signature: "setrequest/atomic-empty-not-applied", What: "after an atomic notification without updates at " + pfs + ": " + strings.Join(bad, " ; "), Input: in})
+		}
+	}
+}
